@@ -222,6 +222,14 @@ def install_models(P):
     def _(m, fr, a, _m):
         return m.env.write_all(m, as_slice(a[1]))
 
+    @M('<Box<dyn std::io::Write> as std::io::Write>::write')
+    def _(m, fr, a, _m):
+        return m.env.write(m, as_slice(a[1]))
+
+    @M('<Box<dyn std::io::Write> as std::io::Write>::flush')
+    def _(m, fr, a, _m):
+        return Enum('Ok', [[]])
+
     @M(r'^Result::<.*>::unwrap$', regex=True)
     def _(m, fr, a, _m):
         r = a[0]
@@ -437,3 +445,19 @@ class WriteEnv:
         self.sink += vals
         self.calls.append(len(vals))
         return Enum('Ok', [[]])
+
+    def write(self, m, sl):
+        """a single `write` call (not used by the library as it stands): the sink may accept everything, only a part, or
+        report Interrupted - the caller has to cope (that is what write_all does)"""
+        vals = sl.values()
+        opts = ['all']
+        if len(vals) > 1:
+            opts.append('part')
+        opts.append('intr')
+        c = opts[m.decide(len(opts))] if len(opts) > 1 else opts[0]
+        self.calls.append('write:' + c)
+        if c == 'intr':
+            return Enum('Err', [Opaque('io::Error', 'Interrupted')])
+        k = len(vals) if c == 'all' else max(1, len(vals) // 2)
+        self.sink += vals[:k]
+        return Enum('Ok', [I(k, 'usize')])
